@@ -67,21 +67,23 @@ func init() {
 const defaultQLen = 128
 
 func (s *socket) SendMsg(m *protocol.Message) error {
-	if len(m.Header) < 4 {
-		m.Free()
-		return nil
-	}
-
-	if m.Header[0] != 0 || m.Header[1] != 0 || m.Header[2] != 0 {
-		m.Free()
-		return nil
-	}
-
 	timeQ := nilQ
 	s.Lock()
 	if s.closed {
 		s.Unlock()
 		return protocol.ErrClosed
+	}
+
+	if len(m.Header) < 4 {
+		s.Unlock()
+		m.Free()
+		return nil
+	}
+
+	if m.Header[0] != 0 || m.Header[1] != 0 || m.Header[2] != 0 {
+		s.Unlock()
+		m.Free()
+		return nil
 	}
 	if s.bestEffort {
 		timeQ = closedQ
